@@ -18,7 +18,515 @@ use verif_harness::*;
 #[path = "/repo/crates/cli/src/builtins.rs"]
 mod cli_builtins;
 
-include!("c05_gen.rs");
+// ------------------------------------------------------------------ schema models
+
+const TS_LOCS: [&str; 11] = ["SCHEMA", "SCALAR", "OBJECT", "FIELD_DEFINITION", "ARGUMENT_DEFINITION", "INTERFACE", "UNION",
+                             "ENUM", "ENUM_VALUE", "INPUT_OBJECT", "INPUT_FIELD_DEFINITION"];
+const EX_LOCS: [&str; 8] = ["QUERY", "MUTATION", "SUBSCRIPTION", "FIELD", "FRAGMENT_DEFINITION", "FRAGMENT_SPREAD",
+                            "INLINE_FRAGMENT", "VARIABLE_DEFINITION"];
+const BUILTIN_SCALARS: [&str; 5] = ["Int", "Float", "String", "Boolean", "ID"];
+
+#[derive(Clone, Debug, PartialEq)]
+enum Ty { Named(String), List(Box<Ty>), NonNull(Box<Ty>) }
+impl Ty {
+    fn n(s: &str) -> Ty { Ty::Named(s.to_string()) }
+    fn nn(t: Ty) -> Ty { Ty::NonNull(Box::new(t)) }
+    fn l(t: Ty) -> Ty { Ty::List(Box::new(t)) }
+    fn base(&self) -> &str { match self { Ty::Named(n) => n, Ty::List(t) | Ty::NonNull(t) => t.base() } }
+    fn set_base(&mut self, s: &str) { match self { Ty::Named(n) => *n = s.to_string(), Ty::List(t) | Ty::NonNull(t) => t.set_base(s) } }
+    fn render(&self) -> String {
+        match self { Ty::Named(n) => n.clone(), Ty::List(t) => format!("[{}]", t.render()), Ty::NonNull(t) => format!("{}!", t.render()) }
+    }
+    fn is_nonnull(&self) -> bool { matches!(self, Ty::NonNull(_)) }
+}
+
+/// a directive application; args None = no parentheses
+#[derive(Clone, Debug)]
+struct App { name: String, args: Option<Vec<(String, String)>> }
+#[derive(Clone, Debug)]
+struct Arg { name: String, ty: Ty, default: Option<String>, dirs: Vec<App>, desc: Option<String> }
+#[derive(Clone, Debug)]
+struct Field { name: String, args: Vec<Arg>, ty: Ty, dirs: Vec<App>, desc: Option<String>, root: Option<(String, String)> }
+#[derive(Clone, Debug)]
+struct EnumVal { name: String, dirs: Vec<App> }
+#[derive(Clone, Debug)]
+enum Kind {
+    Scalar,
+    Object { implements: Vec<String>, fields: Vec<Field> },
+    Interface { implements: Vec<String>, fields: Vec<Field> },
+    Union { members: Vec<String> },
+    Enum { values: Vec<EnumVal> },
+    Input { fields: Vec<Arg> },
+}
+#[derive(Clone, Debug)]
+struct TypeDef { name: String, kind: Kind, dirs: Vec<App>, desc: Option<String>, is_ext: bool }
+#[derive(Clone, Debug)]
+struct DirDef { name: String, args: Vec<Arg>, repeatable: bool, locations: Vec<String>, desc: Option<String> }
+#[derive(Clone, Debug)]
+struct SchemaDef { dirs: Vec<App>, ops: Vec<(String, String)>, is_ext: bool }
+#[derive(Clone, Debug)]
+enum Item { T(TypeDef), D(DirDef), S(SchemaDef) }
+#[derive(Clone, Debug)]
+struct Model { items: Vec<Item>, features: Vec<String>, n_files: usize }
+
+impl Model {
+    fn types(&self) -> impl Iterator<Item = &TypeDef> { self.items.iter().filter_map(|i| if let Item::T(t) = i { Some(t) } else { None }) }
+    fn dirs(&self) -> impl Iterator<Item = &DirDef> { self.items.iter().filter_map(|i| if let Item::D(d) = i { Some(d) } else { None }) }
+    fn get(&self, name: &str) -> Option<&TypeDef> { self.types().find(|t| t.name == name && !t.is_ext) }
+    fn get_dir(&self, name: &str) -> Option<DirDef> {
+        if let Some(d) = self.dirs().find(|d| d.name == name) { return Some(d.clone()); }
+        builtin_dirs().into_iter().find(|d| d.name == name)
+    }
+    fn names_of(&self, f: impl Fn(&Kind) -> bool) -> Vec<String> { self.types().filter(|t| !t.is_ext && f(&t.kind)).map(|t| t.name.clone()).collect() }
+    fn kind_tag(&self, name: &str) -> &'static str {
+        if BUILTIN_SCALARS.contains(&name) { return "scalar"; }
+        match self.get(name).map(|t| &t.kind) {
+            Some(Kind::Scalar) => "scalar", Some(Kind::Object { .. }) => "object", Some(Kind::Interface { .. }) => "interface",
+            Some(Kind::Union { .. }) => "union", Some(Kind::Enum { .. }) => "enum", Some(Kind::Input { .. }) => "input", None => "none",
+        }
+    }
+}
+
+fn builtin_dirs() -> Vec<DirDef> {
+    let a = |n: &str, t: Ty, d: Option<&str>| Arg { name: n.into(), ty: t, default: d.map(|x| x.to_string()), dirs: vec![], desc: None };
+    let s = |xs: &[&str]| xs.iter().map(|x| x.to_string()).collect::<Vec<_>>();
+    vec![
+        DirDef { name: "skip".into(), args: vec![a("if", Ty::nn(Ty::n("Boolean")), None)], repeatable: false, locations: s(&["FIELD", "FRAGMENT_SPREAD", "INLINE_FRAGMENT"]), desc: None },
+        DirDef { name: "include".into(), args: vec![a("if", Ty::nn(Ty::n("Boolean")), None)], repeatable: false, locations: s(&["FIELD", "FRAGMENT_SPREAD", "INLINE_FRAGMENT"]), desc: None },
+        DirDef { name: "deprecated".into(), args: vec![a("reason", Ty::n("String"), Some("\"No longer supported\""))], repeatable: false,
+                 locations: s(&["FIELD_DEFINITION", "ARGUMENT_DEFINITION", "INPUT_FIELD_DEFINITION", "ENUM_VALUE"]), desc: None },
+        DirDef { name: "specifiedBy".into(), args: vec![a("url", Ty::nn(Ty::n("String")), None)], repeatable: false, locations: s(&["SCALAR"]), desc: None },
+        DirDef { name: "nitrogql_ts_type".into(), args: ["resolverInput", "resolverOutput", "operationInput", "operationOutput"].iter()
+                    .map(|n| a(n, Ty::nn(Ty::n("String")), None)).collect(), repeatable: false, locations: s(&["SCALAR"]), desc: None },
+    ]
+}
+
+// ------------------------------------------------------------------ rendering (layout choices from `lay`)
+
+fn r_app(a: &App) -> String {
+    match &a.args {
+        None => format!("@{}", a.name),
+        Some(xs) => format!("@{}({})", a.name, xs.iter().map(|(k, v)| format!("{k}: {v}")).collect::<Vec<_>>().join(", ")),
+    }
+}
+fn r_apps(ds: &[App]) -> String { ds.iter().map(|d| format!(" {}", r_app(d))).collect::<String>() }
+fn r_desc(d: &Option<String>, ind: &str) -> String {
+    match d {
+        None => String::new(),
+        Some(x) if x.contains('\n') => format!("{ind}\"\"\"\n{ind}{}\n{ind}\"\"\"\n", x.replace('\n', &format!("\n{ind}"))),
+        Some(x) => format!("{ind}\"{}\"\n", x.replace('\\', "\\\\").replace('"', "\\\"")),
+    }
+}
+fn r_arg(a: &Arg) -> String {
+    format!("{}{}: {}{}{}", match &a.desc { Some(d) => format!("\"{}\" ", d), None => String::new() }, a.name, a.ty.render(),
+            a.default.as_ref().map(|d| format!(" = {d}")).unwrap_or_default(), r_apps(&a.dirs))
+}
+fn r_args(args: &[Arg], lay: &mut Rng) -> String {
+    if args.is_empty() { return String::new(); }
+    let sep = if lay.chance(1, 4) { "\n    " } else if lay.chance(1, 3) { " " } else { ", " };
+    format!("({})", args.iter().map(r_arg).collect::<Vec<_>>().join(sep))
+}
+fn r_field(f: &Field, lay: &mut Rng) -> String {
+    format!("{}  {}{}: {}{}\n", r_desc(&f.desc, "  "), f.name, r_args(&f.args, lay), f.ty.render(), r_apps(&f.dirs))
+}
+fn r_impl(xs: &[String], lay: &mut Rng) -> String {
+    if xs.is_empty() { String::new() } else { format!(" implements {}{}", if lay.chance(1, 5) { "& " } else { "" }, xs.join(" & ")) }
+}
+
+/// One SDL chunk per item part; a type may be split into its definition and `extend` blocks that are emitted
+/// later and possibly into another file.  Split points are suffixes, so the merged definition keeps the order.
+fn render_model(m: &Model, lay: &mut Rng) -> Vec<String> {
+    let nf = m.n_files.max(1);
+    let mut files: Vec<String> = vec![String::new(); nf];
+    let mut later: Vec<(usize, String)> = vec![];
+    let lead = |lay: &mut Rng| -> String { match lay.below(6) { 0 => "\n".into(), 1 => "# c\n".into(), 2 => "  ".into(), _ => String::new() } };
+    for it in &m.items {
+        let file = lay.below(nf);
+        let mut out = lead(lay);
+        match it {
+            Item::S(s) => {
+                let kw = if s.is_ext { "extend schema" } else { "schema" };
+                if s.ops.is_empty() { out += &format!("{kw}{}\n", r_apps(&s.dirs)); }
+                else {
+                    let (mut d0, mut o0) = (s.dirs.clone(), s.ops.clone());
+                    if !s.is_ext && lay.chance(1, 3) && (d0.len() > 0 || o0.len() > 1) {
+                        // split off an `extend schema`
+                        let dk = if d0.is_empty() { 0 } else { lay.below(d0.len() + 1) };
+                        let ok = if o0.len() > 1 { lay.range(1, o0.len()) } else { o0.len() };
+                        let (d1, o1) = (d0.split_off(dk), o0.split_off(ok));
+                        if !d1.is_empty() || !o1.is_empty() {
+                            let body = if o1.is_empty() { String::new() } else { format!(" {{ {} }}", o1.iter().map(|(a, b)| format!("{a}: {b}")).collect::<Vec<_>>().join(" ")) };
+                            later.push((lay.below(nf), format!("extend schema{}{}\n", r_apps(&d1), body)));
+                        }
+                    }
+                    out += &format!("{kw}{} {{\n{}}}\n", r_apps(&d0), o0.iter().map(|(a, b)| format!("  {a}: {b}\n")).collect::<String>());
+                }
+            }
+            Item::D(d) => {
+                out += &r_desc(&d.desc, "");
+                out += &format!("directive @{}{}{} on {}{}\n", d.name, r_args(&d.args, lay), if d.repeatable { " repeatable" } else { "" },
+                                if lay.chance(1, 5) { "| " } else { "" }, d.locations.join(" | "));
+            }
+            Item::T(t) => {
+                let ext = if t.is_ext { "extend " } else { "" };
+                let split = !t.is_ext && lay.chance(1, 3);
+                out += &if t.is_ext { String::new() } else { r_desc(&t.desc, "") };
+                let mut dirs = t.dirs.clone();
+                let dirs1 = if split && !dirs.is_empty() && lay.chance(1, 2) { dirs.split_off(lay.below(dirs.len() + 1)) } else { vec![] };
+                match &t.kind {
+                    Kind::Scalar => {
+                        out += &format!("{ext}scalar {}{}\n", t.name, r_apps(&dirs));
+                        if !dirs1.is_empty() { later.push((lay.below(nf), format!("extend scalar {}{}\n", t.name, r_apps(&dirs1)))); }
+                    }
+                    Kind::Object { implements, fields } | Kind::Interface { implements, fields } => {
+                        let kw = if matches!(t.kind, Kind::Object { .. }) { "type" } else { "interface" };
+                        let (mut i0, mut f0) = (implements.clone(), fields.clone());
+                        let i1 = if split && !i0.is_empty() && lay.chance(1, 2) { i0.split_off(lay.below(i0.len() + 1)) } else { vec![] };
+                        let f1 = if split && f0.len() > 1 { f0.split_off(lay.range(1, f0.len())) } else { vec![] };
+                        let body = |fs: &[Field], lay: &mut Rng| if fs.is_empty() { String::new() } else { format!(" {{\n{}}}", fs.iter().map(|f| r_field(f, lay)).collect::<String>()) };
+                        out += &format!("{ext}{kw} {}{}{}{}\n", t.name, r_impl(&i0, lay), r_apps(&dirs), body(&f0, lay));
+                        if !i1.is_empty() || !f1.is_empty() || !dirs1.is_empty() {
+                            if lay.chance(1, 2) && !f1.is_empty() && (!i1.is_empty() || !dirs1.is_empty()) {
+                                // two extensions
+                                later.push((lay.below(nf), format!("extend {kw} {}{}{}\n", t.name, r_impl(&i1, lay), r_apps(&dirs1))));
+                                later.push((lay.below(nf), format!("extend {kw} {}{}\n", t.name, body(&f1, lay))));
+                            } else {
+                                later.push((lay.below(nf), format!("extend {kw} {}{}{}{}\n", t.name, r_impl(&i1, lay), r_apps(&dirs1), body(&f1, lay))));
+                            }
+                        }
+                    }
+                    Kind::Union { members } => {
+                        let mut m0 = members.clone();
+                        let m1 = if split && m0.len() > 1 { m0.split_off(lay.range(1, m0.len())) } else { vec![] };
+                        let ms = |xs: &[String], lay: &mut Rng| if xs.is_empty() { String::new() } else { format!(" = {}{}", if lay.chance(1, 4) { "| " } else { "" }, xs.join(" | ")) };
+                        out += &format!("{ext}union {}{}{}\n", t.name, r_apps(&dirs), if m0.is_empty() && !t.is_ext { " =".to_string() } else { ms(&m0, lay) });
+                        if !m1.is_empty() || !dirs1.is_empty() { later.push((lay.below(nf), format!("extend union {}{}{}\n", t.name, r_apps(&dirs1), ms(&m1, lay)))); }
+                    }
+                    Kind::Enum { values } => {
+                        let mut v0 = values.clone();
+                        let v1 = if split && v0.len() > 1 { v0.split_off(lay.range(1, v0.len())) } else { vec![] };
+                        let body = |vs: &[EnumVal]| if vs.is_empty() { String::new() } else { format!(" {{\n{}}}", vs.iter().map(|v| format!("  {}{}\n", v.name, r_apps(&v.dirs))).collect::<String>()) };
+                        out += &format!("{ext}enum {}{}{}\n", t.name, r_apps(&dirs), body(&v0));
+                        if !v1.is_empty() || !dirs1.is_empty() { later.push((lay.below(nf), format!("extend enum {}{}{}\n", t.name, r_apps(&dirs1), body(&v1)))); }
+                    }
+                    Kind::Input { fields } => {
+                        let mut f0 = fields.clone();
+                        let f1 = if split && f0.len() > 1 { f0.split_off(lay.range(1, f0.len())) } else { vec![] };
+                        let body = |fs: &[Arg]| if fs.is_empty() { String::new() } else { format!(" {{\n{}}}", fs.iter().map(|f| format!("  {}\n", r_arg(f))).collect::<String>()) };
+                        out += &format!("{ext}input {}{}{}\n", t.name, r_apps(&dirs), body(&f0));
+                        if !f1.is_empty() || !dirs1.is_empty() { later.push((lay.below(nf), format!("extend input {}{}{}\n", t.name, r_apps(&dirs1), body(&f1)))); }
+                    }
+                }
+            }
+        }
+        files[file] += &out;
+        // sometimes flush pending extensions early (an extension may precede other definitions, never its own original
+        // in the same file order problem: the resolver is order-insensitive, so any placement after generation is fine)
+        if lay.chance(1, 4) { for (f, t) in later.drain(..) { files[f] += &t; } }
+    }
+    for (f, t) in later.drain(..) { files[f] += &t; }
+    // every file must hold at least one definition (the grammar needs one)
+    let files: Vec<String> = files.into_iter()
+        .filter(|f| f.lines().any(|l| !l.trim_start().starts_with('#') && l.contains(|c: char| c.is_ascii_alphabetic()))).collect();
+    if files.is_empty() { vec!["scalar Lonely\n".to_string()] } else { files }
+}
+
+// ------------------------------------------------------------------ valid-by-construction generator
+
+struct GenCfg { big: bool }
+
+fn wrap(rng: &mut Rng, base: &str) -> Ty {
+    let mut t = Ty::n(base);
+    if rng.chance(1, 2) { t = Ty::nn(t); }
+    let lists = match rng.below(10) { 0..=5 => 0, 6..=8 => 1, _ => 2 };
+    for _ in 0..lists { t = Ty::l(t); if rng.chance(1, 2) { t = Ty::nn(t); } }
+    t
+}
+
+/// a literal the specification accepts for `ty` (const value: no variables)
+fn lit(rng: &mut Rng, types: &[TypeDef], ty: &Ty, depth: usize) -> String {
+    match ty {
+        Ty::NonNull(t) => lit_nn(rng, types, t, depth),
+        t => if rng.chance(1, 8) { "null".into() } else { lit_nn(rng, types, t, depth) },
+    }
+}
+fn lit_nn(rng: &mut Rng, types: &[TypeDef], ty: &Ty, depth: usize) -> String {
+    match ty {
+        Ty::NonNull(t) => lit_nn(rng, types, t, depth),
+        Ty::List(t) => {
+            if rng.chance(1, 5) { lit_nn(rng, types, t, depth) }      // a single value is coerced to a list of one
+            else { let n = if depth > 2 { 0 } else { rng.below(3) }; format!("[{}]", (0..n).map(|_| lit(rng, types, t, depth + 1)).collect::<Vec<_>>().join(", ")) }
+        }
+        Ty::Named(n) => match n.as_str() {
+            "Int" => (*rng.pick(&["0", "3", "-7", "2147483647"])).to_string(),
+            "Float" => (*rng.pick(&["1.5", "2", "-0.25", "1e3", "6.0E-2"])).to_string(),
+            "String" => (*rng.pick(&["\"x\"", "\"\"", "\"a b\"", "\"\"\"block\"\"\"", "\"q\\\"uote\""])).to_string(),
+            "Boolean" => (*rng.pick(&["true", "false"])).to_string(),
+            "ID" => (*rng.pick(&["\"id1\"", "4"])).to_string(),
+            _ => match types.iter().find(|t| &t.name == n).map(|t| &t.kind) {
+                Some(Kind::Enum { values }) => rng.pick(values).name.clone(),
+                Some(Kind::Input { fields }) => {
+                    let mut parts = vec![];
+                    for f in fields {
+                        let required = f.ty.is_nonnull() && f.default.is_none();
+                        if required || (depth < 2 && rng.chance(1, 2)) { parts.push(format!("{}: {}", f.name, lit(rng, types, &f.ty, depth + 1))); }
+                    }
+                    rng.shuffle(&mut parts);
+                    format!("{{{}}}", parts.join(", "))
+                }
+                // custom scalar: any literal
+                _ => (*rng.pick(&["1", "\"s\"", "true", "2.5", "ANY", "[1, \"a\"]", "{k: 1}"])).to_string(),
+            },
+        }
+    }
+}
+
+fn gen_app(rng: &mut Rng, d: &DirDef, types: &[TypeDef]) -> App {
+    let mut args = vec![];
+    for a in &d.args {
+        let required = a.ty.is_nonnull() && a.default.is_none();
+        if required || rng.chance(1, 2) { args.push((a.name.clone(), lit(rng, types, &a.ty, 0))); }
+    }
+    if rng.chance(1, 3) { rng.shuffle(&mut args); }
+    App { name: d.name.clone(), args: if args.is_empty() { None } else { Some(args) } }
+}
+/// 0-2 legal applications for location `loc` out of `pool`
+fn pick_apps(rng: &mut Rng, loc: &str, pool: &[DirDef], types: &[TypeDef], p_num: usize) -> Vec<App> {
+    let mut out: Vec<App> = vec![];
+    if !rng.chance(p_num, 10) { return out; }
+    let ok: Vec<&DirDef> = pool.iter().filter(|d| d.locations.iter().any(|l| l == loc)).collect();
+    if ok.is_empty() { return out; }
+    for _ in 0..rng.range(1, 2) {
+        let d = *rng.pick(&ok);
+        if !d.repeatable && out.iter().any(|a| a.name == d.name) { continue; }
+        out.push(gen_app(rng, d, types));
+    }
+    out
+}
+fn gen_desc(rng: &mut Rng) -> Option<String> {
+    if !rng.chance(1, 6) { return None; }
+    Some((*rng.pick(&["a description", "multi\nline", "with \"quotes\"", "unicode é 日本"])).to_string())
+}
+
+fn refine(rng: &mut Rng, t: &Ty, sub: &dyn Fn(&str) -> Vec<String>, allow_nn: bool) -> Ty {
+    match t {
+        Ty::NonNull(x) => Ty::nn(refine(rng, x, sub, false)),
+        Ty::List(x) => { let r = Ty::l(refine(rng, x, sub, true)); if allow_nn && rng.chance(1, 3) { Ty::nn(r) } else { r } }
+        Ty::Named(n) => {
+            let subs = sub(n);
+            let b = if !subs.is_empty() && rng.chance(1, 2) { rng.pick(&subs).clone() } else { n.clone() };
+            if allow_nn && rng.chance(1, 3) { Ty::nn(Ty::Named(b)) } else { Ty::Named(b) }
+        }
+    }
+}
+
+fn gen_model(rng: &mut Rng, cfg: &GenCfg) -> Model {
+    let k = if cfg.big { 2 } else { 1 };
+    let mut features: Vec<String> = vec![];
+    let mut leaf_types: Vec<TypeDef> = vec![];
+    // --- scalars, enums, inputs (no directive applications yet)
+    let sc_names = ["Date", "JSON", "_Url", "a__b"];
+    let n_scalar = rng.below(2 * k + 1).min(4);
+    for i in 0..n_scalar { leaf_types.push(TypeDef { name: sc_names[i].into(), kind: Kind::Scalar, dirs: vec![], desc: gen_desc(rng), is_ext: false }); }
+    let n_enum = rng.range(1, 2 * k);
+    for i in 0..n_enum {
+        let n = rng.range(1, 4);
+        leaf_types.push(TypeDef { name: format!("E{i}"), kind: Kind::Enum { values: (0..n).map(|j| EnumVal { name: format!("V{i}{j}"), dirs: vec![] }).collect() },
+                                  dirs: vec![], desc: gen_desc(rng), is_ext: false });
+    }
+    let leafs: Vec<String> = BUILTIN_SCALARS.iter().map(|s| s.to_string()).chain(leaf_types.iter().map(|t| t.name.clone())).collect();
+    let n_input = rng.range(1, 2 * k + 1);
+    let in_names: Vec<String> = (0..n_input).map(|i| format!("In{i}")).collect();
+    for i in 0..n_input {
+        let nf = rng.range(1, 4);
+        let mut fields = vec![];
+        for j in 0..nf {
+            let (ty, default) = if rng.chance(1, 4) {
+                let target = rng.pick(&in_names).clone();
+                (if rng.chance(1, 2) { Ty::n(&target) } else { Ty::l(Ty::nn(Ty::n(&target))) }, None)
+            } else {
+                let base = rng.pick(&leafs).clone();
+                let ty = wrap(rng, &base);
+                let default = if rng.chance(1, 4) { Some(lit(rng, &leaf_types, &ty, 1)) } else { None };
+                (ty, default)
+            };
+            fields.push(Arg { name: format!("i{j}"), ty, default, dirs: vec![], desc: gen_desc(rng).filter(|d| !d.contains('\n') && !d.contains('"')) });
+        }
+        leaf_types.push(TypeDef { name: format!("In{i}"), kind: Kind::Input { fields }, dirs: vec![], desc: gen_desc(rng), is_ext: false });
+    }
+    let in_types: Vec<String> = leafs.iter().cloned().chain(in_names.iter().cloned()).collect();
+    // --- directive definitions: leaf (arguments of built-in scalar types, no applications) and upper
+    let mut ddefs: Vec<DirDef> = vec![];
+    let all_ts: Vec<String> = TS_LOCS.iter().map(|s| s.to_string()).collect();
+    let n_leaf = rng.range(1, 2);
+    for i in 0..n_leaf {
+        let mut locations = if i == 0 { all_ts.clone() } else { TS_LOCS.iter().filter(|_| rng.chance(1, 2)).map(|s| s.to_string()).collect() };
+        for l in EX_LOCS.iter() { if rng.chance(1, 5) { locations.push(l.to_string()); } }
+        if locations.is_empty() { locations.push("OBJECT".into()); }
+        rng.shuffle(&mut locations);
+        let na = rng.below(3);
+        let args = (0..na).map(|j| {
+            let base = *rng.pick(&BUILTIN_SCALARS);
+            let ty = wrap(rng, base);
+            let default = if rng.chance(1, 3) { Some(lit(rng, &leaf_types, &ty, 1)) } else { None };
+            Arg { name: format!("p{j}"), ty, default, dirs: vec![], desc: None }
+        }).collect();
+        ddefs.push(DirDef { name: format!("l{i}"), args, repeatable: rng.chance(1, 2), locations, desc: gen_desc(rng) });
+    }
+    let leaf_pool: Vec<DirDef> = ddefs.iter().cloned().chain(builtin_dirs().into_iter().filter(|d| d.name == "deprecated" || d.name == "specifiedBy")).collect();
+    let n_upper = rng.below(2 * k + 1);
+    for i in 0..n_upper {
+        let mut locations: Vec<String> = TS_LOCS.iter().chain(EX_LOCS.iter()).filter(|_| rng.chance(1, 3)).map(|s| s.to_string()).collect();
+        if locations.is_empty() { locations.push("FIELD_DEFINITION".into()); }
+        let na = rng.range(0, 3);
+        let pool_now: Vec<DirDef> = ddefs.clone();
+        let args = (0..na).map(|j| {
+            let base = rng.pick(&in_types).clone();
+            let ty = wrap(rng, &base);
+            let default = if rng.chance(1, 3) { Some(lit(rng, &leaf_types, &ty, 1)) } else { None };
+            let dirs = pick_apps(rng, "ARGUMENT_DEFINITION", &pool_now.iter().cloned().chain(leaf_pool.iter().filter(|d| d.name == "deprecated").cloned()).collect::<Vec<_>>(), &leaf_types, 4);
+            Arg { name: format!("q{j}"), ty, default, dirs, desc: None }
+        }).collect();
+        ddefs.push(DirDef { name: format!("u{i}"), args, repeatable: rng.chance(1, 3), locations, desc: gen_desc(rng) });
+    }
+    let full_pool: Vec<DirDef> = ddefs.iter().cloned().chain(builtin_dirs().into_iter().filter(|d| d.name == "deprecated" || d.name == "specifiedBy")).collect();
+    // --- applications on scalars / enums / inputs: leaf pool only (keeps directive definitions acyclic)
+    let snapshot = leaf_types.clone();
+    for t in leaf_types.iter_mut() {
+        match &mut t.kind {
+            Kind::Scalar => { t.dirs = pick_apps(rng, "SCALAR", &leaf_pool, &snapshot, 5); }
+            Kind::Enum { values } => {
+                t.dirs = pick_apps(rng, "ENUM", &leaf_pool, &snapshot, 4);
+                for v in values.iter_mut() { v.dirs = pick_apps(rng, "ENUM_VALUE", &leaf_pool, &snapshot, 4); }
+            }
+            Kind::Input { fields } => {
+                t.dirs = pick_apps(rng, "INPUT_OBJECT", &leaf_pool, &snapshot, 4);
+                for f in fields.iter_mut() { f.dirs = pick_apps(rng, "INPUT_FIELD_DEFINITION", &leaf_pool, &snapshot, 4); }
+            }
+            _ => {}
+        }
+    }
+    // --- headers of composite types
+    let n_iface = rng.below(2 * k + 2);
+    let n_obj = rng.range(2, 2 * k + 2);
+    let n_union = rng.below(k + 2);
+    let explicit_schema = rng.chance(1, 2);
+    struct Hdr { name: String, is_obj: bool, implements: Vec<String>, depth: usize }
+    let mut hdrs: Vec<Hdr> = vec![];
+    let close = |hdrs: &Vec<Hdr>, picked: Vec<String>| -> Vec<String> {
+        let mut out: Vec<String> = vec![];
+        for p in picked { for q in hdrs.iter().find(|h| h.name == p).map(|h| h.implements.clone()).unwrap_or_default().into_iter().chain(std::iter::once(p.clone())) {
+            if !out.contains(&q) { out.push(q); } } }
+        out
+    };
+    for i in 0..n_iface {
+        let picked: Vec<String> = hdrs.iter().filter(|_| rng.chance(1, 2)).map(|h| h.name.clone()).collect();
+        let mut implements = close(&hdrs, picked);
+        if rng.chance(1, 3) { rng.shuffle(&mut implements); }
+        let depth = implements.iter().map(|j| hdrs.iter().find(|h| &h.name == j).unwrap().depth + 1).max().unwrap_or(0);
+        hdrs.push(Hdr { name: if i == 0 && rng.chance(1, 3) { "Node".into() } else { format!("I{i}") }, is_obj: false, implements, depth });
+    }
+    let iface_hdr_n = hdrs.len();
+    for i in 0..n_obj {
+        let picked: Vec<String> = hdrs[..iface_hdr_n].iter().filter(|_| rng.chance(2, 5)).map(|h| h.name.clone()).collect();
+        let mut implements = close(&hdrs, picked);
+        if rng.chance(1, 3) { rng.shuffle(&mut implements); }
+        let depth = implements.iter().map(|j| hdrs.iter().find(|h| &h.name == j).unwrap().depth + 1).max().unwrap_or(0);
+        let name = if i == 0 && !explicit_schema { "Query".to_string() } else if i == 0 { "RootQ".to_string() } else { format!("O{i}") };
+        hdrs.push(Hdr { name, is_obj: true, implements, depth });
+    }
+    let obj_names: Vec<String> = hdrs.iter().filter(|h| h.is_obj).map(|h| h.name.clone()).collect();
+    let mut unions: Vec<(String, Vec<String>)> = vec![];
+    for i in 0..n_union {
+        let mut ms: Vec<String> = obj_names.iter().filter(|_| rng.chance(1, 2)).cloned().collect();
+        if ms.is_empty() { ms.push(rng.pick(&obj_names).clone()); }
+        rng.shuffle(&mut ms);
+        unions.push((format!("U{i}"), ms));
+    }
+    let out_types: Vec<String> = leafs.iter().cloned().chain(hdrs.iter().map(|h| h.name.clone())).chain(unions.iter().map(|u| u.0.clone())).collect();
+    let sub = |n: &str| -> Vec<String> {
+        if let Some(u) = unions.iter().find(|u| u.0 == n) { return u.1.clone(); }
+        hdrs.iter().filter(|h| h.implements.iter().any(|j| j == n)).map(|h| h.name.clone()).collect()
+    };
+    let maxd = hdrs.iter().map(|h| h.depth).max().unwrap_or(0);
+    // --- own (root) fields of every interface / object: name, args, refinement chain indexed by depth
+    struct Root { owner: String, name: String, args: Vec<Arg>, chain: Vec<Ty>, desc: Option<String> }
+    let mut roots: Vec<Root> = vec![];
+    let mut gen_args = |rng: &mut Rng, prefix: &str, n: usize| -> Vec<Arg> {
+        (0..n).map(|j| {
+            let base = rng.pick(&in_types).clone();
+            let ty = wrap(rng, &base);
+            let default = if rng.chance(1, 3) { Some(lit(rng, &leaf_types, &ty, 1)) } else { None };
+            let dirs = pick_apps(rng, "ARGUMENT_DEFINITION", &full_pool, &leaf_types, 3);
+            Arg { name: format!("{prefix}{j}"), ty, default, dirs, desc: gen_desc(rng).filter(|d| !d.contains('\n') && !d.contains('"')) }
+        }).collect()
+    };
+    for (hi, h) in hdrs.iter().enumerate() {
+        let n_own = if h.implements.is_empty() { rng.range(1, 3) } else { rng.below(3) };
+        for j in 0..n_own {
+            let base = if rng.chance(1, 2) { rng.pick(&out_types).clone() } else { rng.pick(&leafs).clone() };
+            let t0 = wrap(rng, &base);
+            let mut chain = vec![t0];
+            for _ in 0..=maxd { let last = chain.last().unwrap().clone(); chain.push(if rng.chance(1, 2) { refine(rng, &last, &sub, true) } else { last }); }
+            let na = match rng.below(4) { 0 | 1 => 0, 2 => 1, _ => 2 };
+            roots.push(Root { owner: h.name.clone(), name: format!("f{hi}_{j}"), args: gen_args(rng, "a", na), chain, desc: gen_desc(rng) });
+        }
+    }
+    // --- assemble composite types
+    let mut comp: Vec<TypeDef> = vec![];
+    for h in hdrs.iter() {
+        let mut fields: Vec<Field> = vec![];
+        for r in roots.iter().filter(|r| r.owner == h.name || h.implements.contains(&r.owner)) {
+            let own = r.owner == h.name;
+            // the chain starts at the owner's depth
+            let od = hdrs.iter().find(|x| x.name == r.owner).unwrap().depth;
+            let ty = r.chain[h.depth - od].clone();
+            let mut args = r.args.clone();
+            if !own {
+                for a in args.iter_mut() { a.dirs = pick_apps(rng, "ARGUMENT_DEFINITION", &full_pool, &leaf_types, 2); if rng.chance(1, 2) { a.default = None; } }
+                if rng.chance(1, 4) {
+                    // an additional argument must not be required
+                    let base = rng.pick(&in_types).clone();
+                    let mut ty = wrap(rng, &base);
+                    let mut default = None;
+                    if ty.is_nonnull() {
+                        if rng.chance(1, 6) { default = Some(lit(rng, &leaf_types, &ty, 1)); features.push("extra_nonnull_arg_with_default".into()); }
+                        else if let Ty::NonNull(inner) = ty { ty = *inner; }
+                    }
+                    args.push(Arg { name: "x0".into(), ty, default, dirs: vec![], desc: None });
+                }
+                if rng.chance(1, 5) { rng.shuffle(&mut args); }
+            }
+            fields.push(Field { name: r.name.clone(), args, ty, dirs: pick_apps(rng, "FIELD_DEFINITION", &full_pool, &leaf_types, 3),
+                                desc: if own { r.desc.clone() } else { None }, root: Some((r.owner.clone(), r.name.clone())) });
+        }
+        if fields.is_empty() {
+            fields.push(Field { name: "only".into(), args: vec![], ty: wrap(rng, "Int"), dirs: vec![], desc: None, root: None });
+        }
+        if rng.chance(1, 4) { rng.shuffle(&mut fields); }
+        let dirs = pick_apps(rng, if h.is_obj { "OBJECT" } else { "INTERFACE" }, &full_pool, &leaf_types, 4);
+        let kind = if h.is_obj { Kind::Object { implements: h.implements.clone(), fields } } else { Kind::Interface { implements: h.implements.clone(), fields } };
+        comp.push(TypeDef { name: h.name.clone(), kind, dirs, desc: gen_desc(rng), is_ext: false });
+    }
+    for (n, ms) in &unions {
+        comp.push(TypeDef { name: n.clone(), kind: Kind::Union { members: ms.clone() }, dirs: pick_apps(rng, "UNION", &full_pool, &leaf_types, 4), desc: gen_desc(rng), is_ext: false });
+    }
+    // --- items in a random order
+    let mut items: Vec<Item> = vec![];
+    for t in leaf_types.iter().cloned().chain(comp.into_iter()) { items.push(Item::T(t)); }
+    for d in ddefs { items.push(Item::D(d)); }
+    if explicit_schema {
+        let mut ops = vec![("query".to_string(), "RootQ".to_string())];
+        if obj_names.len() > 1 && rng.chance(1, 2) { ops.push(("mutation".into(), obj_names[1].clone())); }
+        if obj_names.len() > 2 && rng.chance(1, 3) { ops.push(("subscription".into(), obj_names[2].clone())); }
+        items.push(Item::S(SchemaDef { dirs: pick_apps(rng, "SCHEMA", &full_pool, &leaf_types, 5), ops, is_ext: false }));
+    }
+    rng.shuffle(&mut items);
+    features.sort(); features.dedup();
+    Model { items, features, n_files: if rng.chance(1, 2) { 1 } else { rng.range(2, 3) } }
+}
+
+include!("c05_gen3.rs");
 
 // ------------------------------------------------------------------ printing diagnostics as Coq terms
 
